@@ -134,7 +134,7 @@ func TestC18(t *testing.T) {
 		k++
 	}
 	for _, inFlow := range []bool{false, true} {
-		for _, act := range []string{"", "default", "custom"} {
+		for _, act := range []string{"", "default", "custom", " ", "\n"} {
 			for kind := 0; kind < numKinds; kind++ {
 				styles := 1
 				if kind == KFunc {
